@@ -110,6 +110,16 @@ pub enum IterKind {
     LeanSlots,
 }
 
+/// A side effect of a user callback on ANOTHER handle: at its `at`-th invocation the callback drops the handle in
+/// `slot`, or makes one more clone of it (kept until the operation returns). Legal for any user closure that owns
+/// or shares those handles; it changes reference counts in the middle of the operation.
+#[derive(Clone, Copy, Debug, PartialEq, Eq, Hash, Serialize, Deserialize)]
+pub struct Fx {
+    pub at: u16,
+    pub slot: Slot,
+    pub drop: bool,
+}
+
 #[derive(Clone, Debug, PartialEq, Eq, Hash, Serialize, Deserialize)]
 pub struct IterSpec {
     pub kind: IterKind,
@@ -126,6 +136,8 @@ pub struct IterSpec {
     /// an honest but inexact size hint, like `filter` gives: (0, Some(remaining + slack))
     #[serde(default, skip_serializing_if = "Option::is_none")]
     pub loose: Option<u16>,
+    #[serde(default, skip_serializing_if = "Option::is_none")]
+    pub fx: Option<Fx>,
 }
 
 #[derive(Clone, Debug, PartialEq, Eq, Hash, Serialize, Deserialize)]
@@ -137,6 +149,8 @@ pub struct Pieces {
     /// Display::fmt panics before writing piece `panic_at`
     #[serde(default, skip_serializing_if = "Option::is_none")]
     pub panic_at: Option<u16>,
+    #[serde(default, skip_serializing_if = "Option::is_none")]
+    pub fx: Option<Fx>,
 }
 
 #[derive(Clone, Copy, Debug, PartialEq, Eq, Hash, Serialize, Deserialize)]
@@ -146,6 +160,8 @@ pub struct RetainSpec {
     /// predicate panics at its `panic_at`-th invocation (0-based)
     #[serde(default, skip_serializing_if = "Option::is_none")]
     pub panic_at: Option<u16>,
+    #[serde(default, skip_serializing_if = "Option::is_none")]
+    pub fx: Option<Fx>,
 }
 
 #[derive(Clone, Debug, PartialEq, Eq, Hash, Serialize, Deserialize)]
